@@ -24,6 +24,7 @@ def main():
         fence.install([scratch])
         if not fence.self_test(scratch):
             raise RuntimeError("scratch fence does not block: refusing to run")
+        os.chdir(scratch)   # relative store roots (FileStore("sub"), FileStore(".")) live in the scratch directory
         import importlib
 
         mod = importlib.import_module("lqv.checks." + prop.lower())
